@@ -111,6 +111,12 @@ def _group_scenario(gseed: int) -> dict:
         if backend in ("scripted", "differential_evolution"):
             cfg["realizations"]["realization_min_success"] = 0
             scn["nan_tolerant_stratum"] = True
+            has_sd = any(e["method"].endswith("stddev") for e in cfg.get("function_estimators", []))
+            if backend == "scripted" and not has_sd and rng.random() < 0.4:
+                # merged estimation has to cope with an evaluation that leaves no perturbation at all
+                cfg["gradient"]["merge_realizations"] = True
+                if not any(e["op"] in ("g", "fg") for e in cfg["optimizer"]["options"]["script"]):
+                    cfg["optimizer"]["options"]["script"].append({"op": "fg", "pts": [-1]})
     # stratum: the deficiency arises only inside a gradient evaluation that follows its function evaluation (perturbation
     # failures leave a single realization to a stddev estimator while the thresholds are still met)
     scn["gradient_estimator_stratum"] = False
